@@ -37,7 +37,8 @@ def check_recv(ctx, oid="C17.1"):
     fi = ctx.fn(P2P + "recv_msg")
     ev = ctx.evaluator()
     s = ev.run(fi)
-    loops = [lp for lp in s.loops if lp.func == fi.qualname and lp.kind == "while"]
+    # the accumulate loops may live in recv_msg itself or in a helper it calls (inlined: one loop instance per call)
+    loops = [lp for lp in s.loops if lp.kind == "while" and any(isinstance(t, T) and t.op == "io" and t.args[0] == "recv" for v in lp.body.values() for t in tm.subterms(v))]
     R.check(oid, "TYPESTATE", fi, "two accumulate loops (header, payload)", len(loops) == 2, "recv_msg has %d receive loops" % len(loops))
     R.floor(oid, len(loops), 2, "recv_accumulate_loops")
     info = []
@@ -123,30 +124,40 @@ def check_recv(ctx, oid="C17.1"):
 
 
 def check_msg_ser(ctx, oid="C17.4"):
+    """msg_ser on every command of the table (bytes and str), with arbitrary magic and payloads of fixed lengths."""
     R = ctx.R
     fi = ctx.fn(P2P + "msg_ser")
     ev = ctx.evaluator()
-    cmd, payload, start = P("command"), P("payload", tm.BYTES), P("start_bytes", tm.BYTES)
-    ev.assumptions = {tm.cmp("isnot", T("typeof", (cmd,)), T("ext", ("builtins.bytes",))): False}
-    s = ev.run(fi)
-    rets = s.returns()
-    ok = len(rets) == 1 and isinstance(rets[0].value, T) and rets[0].value.op == "cat" and len(rets[0].value.args) == 5
-    R.check(oid, "LAYOUT", fi, "frame has five parts", ok, "msg_ser returns %s" % (tm.show(rets[0].value)[:200] if rets else None))
-    if ok:
-        a = rets[0].value.args
-        pad = a[1]
-        okpad = (isinstance(pad, T) and pad.op == "loopout" and pad.args[1] == "while" and tm.veq(pad.args[2], tm.cmp("lt", tm.length(T("acc", (pad.args[0], pad.args[5]), tm.BYTES)), 12))
-                 and tm.veq(dict(pad.args[3]).get(pad.args[0]), tm.cat([T("acc", (pad.args[0], pad.args[5]), tm.BYTES), b"\x00"])) and tm.veq(dict(pad.args[4]).get(pad.args[0]), cmd)) or \
-            tm.veq(pad, T("m:ljust", (cmd, 12, b"\x00"), tm.BYTES))
-        R.check(oid, "LAYOUT", fi, "magic || command NUL-padded to 12 || len(4 LE) || SHA256d(payload)[:4] || payload",
-                tm.veq(a[0], start) and okpad and tm.veq(a[2], le(tm.length(payload), 4)) and tm.veq(a[3], tm.slc(H2(payload), None, 4)) and tm.veq(a[4], payload),
-                "frame layout differs: %s" % tm.show(rets[0].value)[:300])
-        facts = rules.all_facts(rets[0])
-        cmds = ev.const("bits.p2p", "COMMANDS")
-        R.check(oid, "DOM", fi, "unknown commands refused", any(isinstance(f, T) and f.op == "cmp" and f.args[0] == "in" and tm.veq(f.args[1], cmd) for f in facts) and isinstance(cmds, list) and b"ping" in cmds,
-                "msg_ser does not restrict the command to the command table")
-        R.check(oid, "DOM", fi, "payloads above MAX_SIZE refused", any(tm.veq(f, tm.cmp("le", tm.length(payload), 0x02000000)) for f in facts), "no MAX_SIZE guard")
-    ev.assumptions = {}
+    cmds = ev.const("bits.p2p", "COMMANDS")
+    R.check(oid, "TABLE", fi, "command table", isinstance(cmds, list) and b"ping" in cmds and b"version" in cmds and all(isinstance(c, bytes) and 0 < len(c) <= 12 for c in cmds),
+            "COMMANDS is not a list of 1..12-byte command names: %s" % tm.show(cmds)[:120])
+    if not isinstance(cmds, list):
+        return
+    start = tm.sized("magic", 4)
+    bad = []
+    n = 0
+    for c in cmds:
+        for form in (c, c.decode("ascii")):
+            for pl in (b"", tm.sized("payload", 5), tm.sized("payload", 300)):
+                n += 1
+                k, v = rules.outcome(ev.run(fi, {"start_bytes": start, "command": form, "payload": pl}, use_defaults=True))
+                want = tm.cat([start, c, b"\x00" * (12 - len(c)), le(tm.length(pl), 4), tm.slc(H2(pl), None, 4), pl])
+                if not (k == "return" and tm.veq(v, want)):
+                    bad.append((form, tm.blen(pl), k, tm.first_diff(v, want)[:160] if k == "return" else tm.show(v)[:100]))
+    R.check(oid, "LAYOUT", fi, "magic || command NUL-padded to 12 || len(4 LE) || SHA256d(payload)[:4] || payload for %d (command, payload length) pairs" % n, not bad,
+            "frame layout differs for command %r with a %s-byte payload: %s %s" % (bad[0] if bad else ("", "", "", "")), example=("command %r" % (bad[0][0],)) if bad else None)
+    R.floor(oid, n, 30, "msg_ser_cases")
+    for unk in (b"foo", b"", b"pingpingpingping", "nonsense"):
+        k, v = rules.outcome(ev.run(fi, {"start_bytes": start, "command": unk, "payload": b""}, use_defaults=True))
+        R.check(oid, "DOM", fi, "unknown command %r refused" % (unk,), k == "raise", "msg_ser serialises the unknown command %r: %s" % (unk, tm.show(v)[:80]), nontrivial=False)
+    payload = P("payload", tm.BYTES)
+    mx = ev.const("bits.p2p", "MAX_SIZE")
+    R.check(oid, "TABLE", fi, "MAX_SIZE = 32 MiB", mx == 0x02000000, "MAX_SIZE = %s" % tm.show(mx), nontrivial=False)
+    for L, want_k in ((0x02000000, "return"), (0x02000001, "raise")):
+        ev.bind = {tm.length(payload): L}
+        k, v = rules.decided_outcome(ev.run(fi, {"start_bytes": start, "command": b"ping", "payload": payload}, use_defaults=True))
+        R.check(oid, "DOM", fi, "payload of %#x bytes %s" % (L, "accepted" if want_k == "return" else "refused"), k == want_k, "msg_ser with a %#x-byte payload: %s" % (L, k))
+    ev.bind = {}
 
 
 def field(d, k):
@@ -170,34 +181,6 @@ def check_version_codec(ctx, oid="C17.5"):
                    tm.app(c05.CS, [12], ty=tm.BYTES), b"/bits:0.1.0/", le(sh, 4), tm.ite(P("relay", tm.BOOL), b"\x01", b"\x00")])
     R.check(oid, "LAYOUT", fw, "version layout 4,8,8,8,16,2(BE),8,16,2(BE),8,cs,ua,4,1", tm.veq(w, want) and bool(ts) and ts[0].args[1:] == (8, "little"),
             "version_payload: %s" % tm.first_diff(w, want))
-    fr_ = ctx.fn(P2P + "parse_version_payload")
-    pay = P(fr_.params()[0], tm.BYTES)
-    for n in (range(0, 253) if ctx.thorough else (0, 12, 40, 252)):
-        ev.bind = {tm.idx(pay, 80): n}
-        s = ev.run(fr_)
-        rets = s.returns()
-        okr = len(rets) == 1
-        R.check(oid, "TILE", fr_, "user agent length %d: one result" % n, okr, "parse_version_payload has %d success exits" % len(rets))
-        if not okr:
-            continue
-        d = rets[0].value
-        exp = {"protocol_version": tm.b2i(tm.slc(pay, None, 4), "little"), "services": tm.b2i(tm.slc(pay, 4, 12), "little"), "timestamp": tm.b2i(tm.slc(pay, 12, 20), "little"),
-               "addr_recv_services": tm.b2i(tm.slc(pay, 20, 28), "little"), "addr_recv_ip_addr": T("decode", (tm.slc(pay, 28, 44), "ascii"), tm.STR),
-               "addr_recv_port": tm.b2i(tm.slc(pay, 44, 46), "big"), "addr_trans_services": tm.b2i(tm.slc(pay, 46, 54), "little"),
-               "addr_trans_ip_addr": T("decode", (tm.slc(pay, 54, 70), "ascii"), tm.STR), "addr_trans_port": tm.b2i(tm.slc(pay, 70, 72), "big"),
-               "nonce": tm.b2i(tm.slc(pay, 72, 80), "little"), "user_agent_bytes": n, "start_height": tm.b2i(tm.slc(pay, 81 + n, 85 + n), "little")}
-        if n:
-            exp["user_agent"] = tm.slc(pay, 81, 81 + n)
-        bad = [k for k, v in exp.items() if not tm.veq(field(d, k), v)]
-        R.check(oid, "TILE", fr_, "user agent length %d: field offsets, widths and endianness follow the builder" % n, not bad,
-                "version fields read from the wrong place: %s (e.g. %s = %s)" % (bad, bad[0] if bad else "", tm.show(field(d, bad[0]))[:100] if bad else ""))
-        rel = field(d, "relay")
-        want_rel = tm.ite(tm.cmp("eq", tm.idx(pay, 85 + n), 1), True, tm.ite(tm.cmp("eq", tm.idx(pay, 85 + n), 0), False, T("undef", ("x",))))
-        okrel = isinstance(rel, T) and rel.op == "ite" and tm.veq(rel.args[0], tm.cmp("eq", tm.idx(pay, 85 + n), 1)) and tm._unfz1(rel.args[1]) is True
-        R.check(oid, "TYPE", fr_, "user agent length %d: relay byte at offset %d compared with the integers 1 / 0" % (n, 85 + n), okrel,
-                "relay flag is %s (a byte indexed from bytes is an int; comparing it with b'\\x01' is always false)" % tm.show(rel)[:160],
-                example="a version message with a user agent and relay = 1")
-    ev.bind = {}
 
 
 def check_getheaders_codec(ctx, oid="C17.5"):
@@ -208,65 +191,14 @@ def check_getheaders_codec(ctx, oid="C17.5"):
     want = tm.cat([le(P("protocol_version", tm.INT), 4), tm.app(c05.CS, [P("hash_count", tm.INT)], ty=tm.BYTES), tm.join(b"", hashes), P("stop_hash", tm.BYTES)])
     got = ev.run(fw).value()
     R.check(oid, "LAYOUT", fw, "getheaders = version(4 LE) || cs(count) || hashes || stop hash", tm.veq(got, want), "getheaders_payload: %s" % tm.first_diff(got, want))
-    fr_ = ctx.fn(P2P + "parse_getheaders_payload")
-    pay = P(fr_.params()[0], tm.BYTES)
-    for first in (0, 1, 2, 252, 253, 254, 255):
-        ev.bind = {tm.idx(pay, 4): first}
-        s = ev.run(fr_)
-        w = {253: 2, 254: 4, 255: 8}.get(first, 0)
-        idx0 = 5 + w
-        count = tm.b2i(tm.slc(pay, 5, 5 + w), "little") if w else first
-        rets = [e for e in s.returns()]
-        label = "count prefix byte %d" % first
-        if not rets:
-            R.check(oid, "TILE", fr_, label, False, "no result")
-            continue
-        ok_all = True
-        why = ""
-        from .c03 import _branches
-        leaves = [(fc, leaf) for e in rets for fc, leaf in _branches(e.value, rules.all_facts(e))]
-        for fcts, d in leaves:
-            d = rules.unfz(d)
-            if not tm.veq(field(d, "protocol_version"), tm.b2i(tm.slc(pay, None, 4), "little")) or not tm.veq(field(d, "hash_count"), count):
-                ok_all, why = False, "hash_count = %s, expected %s" % (tm.show(field(d, "hash_count"))[:80], tm.show(count)[:80])
-                continue
-            zero = (isinstance(count, int) and count == 0) or any(tm.veq(g, tm.cmp("le", count, 0)) for g in fcts)
-            if zero:
-                if not tm.veq(field(d, "stop_hash"), tm.hexs(tm.slc(pay, idx0, idx0 + 32))):
-                    ok_all, why = False, "stop hash (no hashes) = %s" % tm.show(field(d, "stop_hash"))[:100]
-                continue
-            blob = tm.slc(pay, idx0, tm.add([idx0, tm.mul([32, count])]))
-            e0 = tm.bv(0)
-            want_h = tm.mapt(tm.hexs(tm.slc(blob, tm.mul([32, e0]), tm.mul([32, tm.add([1, e0])]))), T("range", (0, tm.binop("floordiv", tm.length(blob), 32), 1), tm.LIST))
-            got_h = field(d, "block_header_hashes")
-            if isinstance(count, int) and isinstance(got_h, (list, tuple)):
-                # unrolled: [blob[32i:32(i+1)] for i in range(count)]
-                want_l = [tm.hexs(tm.slc(blob, 32 * i, 32 * (i + 1))) for i in range(count)]
-                okh = len(got_h) == count and all(tm.veq(a, b) for a, b in zip(got_h, want_l))
-            else:
-                okh = tm.veq(got_h, want_h)
-            end = tm.add([idx0, tm.mul([32, count])])
-            oks = tm.veq(field(d, "stop_hash"), tm.hexs(tm.slc(pay, end, tm.add([end, 32]))))
-            if not okh:
-                ok_all, why = False, "hashes = %s" % tm.show(got_h)[:160]
-            elif not oks:
-                ok_all, why = False, "stop hash = %s" % tm.show(field(d, "stop_hash"))[:120]
-        R.check(oid, "TILE", fr_, label + ": count, hashes chunked from index 0 with stride 32, stop hash", ok_all,
-                "getheaders reader (%s): %s" % (label, why), example="a getheaders payload with %s" % ("253 or more hashes" if w else "%d hashes" % first))
-    ev.bind = {}
 
 
 def check_inv_addr_ping(ctx, oid="C17.5"):
+    """Writers and tables; the readers are decided on crafted payloads (rt.check_codec_readers)."""
     R = ctx.R
     ev = ctx.evaluator(opaque={c05.CS, c05.PCS})
-    # ping
     fp = ctx.fn(P2P + "ping_payload")
     R.check(oid, "LAYOUT", fp, "ping = nonce(8 LE)", tm.veq(ev.run(fp).value(), le(P("nonce", tm.INT), 8)), "ping_payload differs")
-    fpp = ctx.fn(P2P + "parse_ping_payload")
-    pay = P("payload", tm.BYTES)
-    v = ev.run(fpp).value()
-    R.check(oid, "TILE", fpp, "parse ping: nonce little-endian over the payload", isinstance(v, dict) and tm.veq(v.get("nonce"), tm.b2i(pay, "little")), "parse_ping_payload: %s" % tm.show(v)[:100])
-    # inventory
     fi_ = ctx.fn(P2P + "inventory")
     inv_tab = ev.const("bits.p2p", "INVENTORY_TYPE_ID")
     want_tab = {"MSG_TX": 1, "MSG_BLOCK": 2, "MSG_FILTERED_BLOCK": 3, "MSG_CMPCT_BLOCK": 4, "MSG_WITNESS_TX": 0x40000001, "MSG_WITNESS_BLOCK": 0x40000002}
@@ -275,63 +207,16 @@ def check_inv_addr_ping(ctx, oid="C17.5"):
         got = rules.outcome(ev.run(fi_, {"type_id": name.lower()}))
         R.check(oid, "LAYOUT", fi_, "inventory(%s) = type(4 LE) || hash" % name, got[0] == "return" and tm.veq(got[1], tm.cat([val.to_bytes(4, "little"), P("hash", tm.BYTES)])),
                 "inventory(%s) = %s" % (name, tm.show(got[1])[:100]))
-    fpi = ctx.fn(P2P + "parse_inventory")
-    inv = P("inventory_", tm.BYTES)
-    for name, val in want_tab.items():
-        ev.bind = {tm.b2i(tm.slc(inv, None, 4), "little"): val, tm.length(inv): 36}
-        got = rules.decided_outcome(ev.run(fpi))
-        R.check(oid, "TILE", fpi, "parse_inventory type %s, hash = bytes 4..36" % name,
-                got[0] == "return" and isinstance(got[1], dict) and got[1].get("type_id") == name and tm.veq(got[1].get("hash"), tm.hexs(tm.slc(inv, 4, None))),
-                "parse_inventory(%s) = %s" % (name, tm.show(got[1])[:120]))
-    ev.bind = {}
     fw = ctx.fn(P2P + "inv_payload")
     invs = P("inventories", tm.LIST)
     R.check(oid, "LAYOUT", fw, "inv = cs(count) || inventories", tm.veq(ev.run(fw).value(), tm.cat([tm.app(c05.CS, [P("count", tm.INT)], ty=tm.BYTES), tm.join(b"", invs)])), "inv_payload differs")
-    fpv = ctx.fn(P2P + "parse_inv_payload")
-    evi = ctx.evaluator(opaque={c05.CS, c05.PCS, P2P + "parse_inventory"})
-    for first in (0, 1, 3, 252):
-        evi.bind = {tm.idx(pay, 0): first}
-        got = rules.decided_outcome(evi.run(fpv))
-        want_l = [tm.app(P2P + "parse_inventory", [tm.slc(pay, 1 + 36 * i, 1 + 36 * (i + 1))], ty=tm.DICT) for i in range(min(first, 3))]
-        d = got[1] if got[0] == "return" else None
-        lst = rules.unfz(field(d, "inventory")) if d is not None else None
-        ok = d is not None and field(d, "count") == first and isinstance(lst, list) and len(lst) == first and all(tm.veq(a, b) for a, b in zip(lst[:3], want_l))
-        R.check(oid, "TILE", fpv, "parse inv with %d entries: stride 36 from offset 1" % first, ok, "parse_inv_payload(%d entries) = %s" % (first, tm.show(d)[:200]),
-                example="an inv message with %d entries" % first)
-    for first, w in ((253, 2), (254, 4), (255, 8)):
-        evi.bind = {tm.idx(pay, 0): first}
-        s = evi.run(fpv)
-        cnt = tm.b2i(tm.slc(pay, 1, 1 + w), "little")
-        loops = [lp for lp in s.loops if lp.func == fpv.qualname]
-        ok = len(loops) == 1 and tm.veq(loops[0].iter, T("range", (0, cnt, 1), tm.LIST))
-        if ok:
-            lp = loops[0]
-            sv = [v for v, init in lp.init.items() if init == 1 + w]
-            ok = len(sv) == 1 and tm.veq(lp.body.get(sv[0]), tm.add([36, T("acc", (sv[0], lp.depth), tm.INT)])) and any(
-                tm.contains(val, lambda t: tm.veq(t, tm.app(P2P + "parse_inventory", [tm.slc(pay, T("acc", (sv[0], lp.depth), tm.INT), tm.add([36, T("acc", (sv[0], lp.depth), tm.INT)]))], ty=tm.DICT)))
-                for val in lp.body.values())
-        R.check(oid, "TILE", fpv, "parse inv, count prefix %02x: count = %d bytes LE at 1, entries from %d with stride 36" % (first, w, 1 + w), ok,
-                "inv reader for the %02x count form differs from CompactSize" % first, example="an inv message with 253 or more entries")
-    evi.bind = {}
-    # addr
     fa = ctx.fn(P2P + "network_ip_addr")
     want = tm.cat([le(P("time", tm.INT), 4), P("services", tm.BYTES), P("ip_addr", tm.BYTES), be(P("port", tm.INT), 2)])
     R.check(oid, "LAYOUT", fa, "network address = time(4 LE) || services(8) || ip(16) || port(2 BE)", tm.veq(ev.run(fa).value(), want), "network_ip_addr differs")
-    fpa = ctx.fn(P2P + "parse_network_ip_addr")
-    v = ev.run(fpa).value()
-    exp = {"time": tm.b2i(tm.slc(pay, None, 4), "little"), "services": tm.slc(pay, 4, 12), "ip_addr": tm.slc(pay, 12, 28)}
-    okp = isinstance(v, dict) and all(tm.veq(v.get(k), x) for k, x in exp.items()) and (tm.veq(v.get("port"), tm.b2i(tm.slc(pay, 28, None), "big")) or tm.veq(v.get("port"), tm.b2i(tm.slc(pay, 28, 30), "big")))
-    R.check(oid, "TILE", fpa, "parse network address: 0..4 LE, 4..12, 12..28, 28..30 BE", okp, "parse_network_ip_addr: %s" % tm.show(v)[:200])
     fwa = ctx.fn(P2P + "addr_payload")
     R.check(oid, "LAYOUT", fwa, "addr = cs(count) || addresses", tm.veq(ev.run(fwa).value(), tm.cat([tm.app(c05.CS, [P("count", tm.INT)], ty=tm.BYTES), tm.join(b"", P("addrs", tm.LIST))])), "addr_payload differs")
-    fpad = ctx.fn(P2P + "parse_addr_payload")
-    eva = ctx.evaluator(opaque={c05.CS, c05.PCS, P2P + "parse_network_ip_addr"})
-    v = eva.run(fpad).value()
-    cnt, rest = c05.pcs(pay, 0), c05.pcs(pay, 1)
-    e0 = tm.bv(0)
-    want = {"addrs": tm.mapt(tm.app(P2P + "parse_network_ip_addr", [tm.slc(rest, tm.mul([30, e0]), tm.mul([30, tm.add([1, e0])]))], ty=tm.DICT), T("range", (0, cnt, 1), tm.LIST))}
-    R.check(oid, "TILE", fpad, "parse addr: count by CompactSize, entries [30i : 30(i+1)] for i in range(count)", isinstance(v, dict) and tm.veq(v.get("addrs"), want["addrs"]),
-            "parse_addr_payload: %s" % tm.show(v)[:240])
+    from . import rt
+    rt.check_codec_readers(ctx, oid)
 
 
 def run(ctx):
